@@ -10,6 +10,7 @@ import (
 	"os"
 	"os/exec"
 	"path/filepath"
+	"reflect"
 	"regexp"
 )
 
@@ -65,6 +66,7 @@ func SetWitness(data []byte) error {
 
 // Reset clears the replay state (between two native runs in one process).
 func Reset() {
+	observers = map[string][]interface{}{}
 	seq = map[string]int{}
 	chooseIx = 0
 	Failures = nil
@@ -178,8 +180,36 @@ func ConcretizeB(b bool) bool { return b }
 
 // Observe registers cb to be called at every entry of the named function
 // with the function's arguments (engine only; natively a no-op).
-func Observe(fn string, cb interface{})       {}
-func ObserveReturn(fn string, cb interface{}) {}
+func Observe(fn string, cb interface{}) { observers["entry:"+fn] = append(observers["entry:"+fn], cb) }
+func ObserveReturn(fn string, cb interface{}) {
+	observers["return:"+fn] = append(observers["return:"+fn], cb)
+}
+
+var observers = map[string][]interface{}{}
+var inObserver bool
+
+// CallObservers is called by the wrappers that the replay tool generates
+// around observed functions (native mode only).
+func CallObservers(kind, fn string, args ...interface{}) {
+	cbs := observers[kind+":"+fn]
+	if len(cbs) == 0 || inObserver {
+		return
+	}
+	inObserver = true
+	defer func() { inObserver = false }()
+	for _, cb := range cbs {
+		f := reflect.ValueOf(cb)
+		in := make([]reflect.Value, len(args))
+		for i, a := range args {
+			if a == nil {
+				in[i] = reflect.Zero(f.Type().In(i))
+			} else {
+				in[i] = reflect.ValueOf(a)
+			}
+		}
+		f.Call(in)
+	}
+}
 
 // MapOrder selects how `range` over maps is explored: 0 insertion order,
 // 1 insertion and reverse, 2 all rotations, 3 all permutations.
